@@ -65,6 +65,13 @@ def session_graph_rules(m: Model, r: Report, rid: str) -> None:
     if len(tables) != 1:
         raise AnalysisError(f"{rz.qualname}: the per-session transition table ([set() for ...]) was not found")
     T = tables[0]
+    tdef = next(n for n in walk_no_nested(rz.node) if isinstance(n, ast.Assign) and isinstance(n.targets[0], ast.Name) and n.targets[0].id == T and isinstance(n.value, ast.ListComp))
+    rng_call = tdef.value.generators[0].iter
+    size = m.try_fold(rz.module, rng_call.args[0]) if isinstance(rng_call, ast.Call) and ast.unparse(rng_call.func) == "range" and len(rng_call.args) == 1 else None
+    if not isinstance(size, int):
+        raise AnalysisError(f"{rz.qualname}: cannot evaluate the size of the session table `{ast.unparse(tdef.value)}`")
+    r.check(size >= 0x80, rid, f"{rz.qualname}#session-table-size", f"the per-session transition table has {size} entries (indices 0..{size - 1:#x}): the session ids a model may name "
+            "go up to 0x7F (check_sub_function), a mandatory / optional session 0x7F makes setup() raise IndexError, so the model the arguments describe is never built", loc=rz.loc)
     consts = {n.targets[0].id for n in walk_no_nested(rz.node) if isinstance(n, ast.Assign) and isinstance(n.targets[0], ast.Name) and isinstance(n.value, ast.Constant)}
     from sa.util import path_condition as _pc16
     for n in walk_no_nested(rz.node):
